@@ -159,14 +159,17 @@ class Harness:
 
     # ---- one scenario
     def prepare(self, sc_):
+        """Returns True, or the record of the set-up step that was not accepted (judged later by StoreOracle)."""
         s = self.sess
         s.fresh()
         for op_ in sc_["setup"]:
+            pre = {d: sc.spec_file(f) for d, f in s.project_all().items()}
+            reg = s.registry()
             r = sc.execute(s, op_)
-            if r["out"] != "ok" and sc_["variant"].endswith("unrelated_content"):
-                return False
             if r["out"] != "ok":
-                raise MachineryError(f"setup step {op_['op']} of scenario {sc_['name']}/{sc_['prior']} failed: {r['exc']} {r['msg']}")
+                post = {d: sc.spec_file(f) for d, f in s.project_all().items()}
+                return {"rec": {"pre": pre, "reg": reg, "op": op_, "out": r["out"], "post": post, "ret": {}, "regpost": s.registry()},
+                        "exc": r["exc"], "msg": r["msg"]}
         self.snap = {d: p + ".pre" for d, p in s.paths.items()}
         for d, p in s.paths.items():
             shutil.copyfile(p, self.snap[d])
@@ -271,7 +274,7 @@ def main(tier, seed):
     try:
         H = Harness(scratch)
         try:
-            records, traces, shapes, meta = enumerate_faults(run, H, scenarios(thorough, seed), thorough, seed)
+            records, traces, shapes, meta, setup_failures = enumerate_faults(run, H, scenarios(thorough, seed), thorough, seed)
         finally:
             H.close()
         # ---- 2. design-level exploration on the real shapes
@@ -279,7 +282,17 @@ def main(tier, seed):
         with open(sfile, "w") as f:
             json.dump(shapes, f)
         rq = tlc.must_pass("StoreTxMC", cfg="StoreTxMC_required", env={"SHAPES_IN": sfile}, timeout=600, workers=4)
-        ri = tlc.check("StoreTxMC", cfg="StoreTxMC_implemented", env={"SHAPES_IN": sfile}, timeout=600, workers=1)
+        # the implemented mode runs with the journal where the recorded pragmas put it
+        weak = [e for t in traces for e in t["ev"] if e["e"] == "exec" and e["pname"] == "journal_mode" and e["pval"] in ("memory", "off")]
+        journal = "memory" if weak else "disk"
+        with open(os.path.join(tlc.SPEC, "StoreTxMC_implemented.cfg")) as f:
+            text = f.read()
+        if 'Journal = "disk"' not in text:
+            raise MachineryError("StoreTxMC_implemented.cfg does not assign Journal")
+        icfg = os.path.join(scratch, "StoreTxMC_implemented.cfg")
+        with open(icfg, "w") as f:
+            f.write(text.replace('Journal = "disk"', 'Journal = "%s"' % journal))
+        ri = tlc.check("StoreTxMC", cfg=icfg, env={"SHAPES_IN": sfile}, timeout=600, workers=1)
         if not ri["ok"]:
             raise MachineryError("StoreTxMC (implemented mode) failed:\n" + "\n".join(ri["out"].splitlines()[-30:]))
         predicted = {}
@@ -294,7 +307,7 @@ def main(tier, seed):
                           "implemented": {"states": ri["distinct"], "transitions": ri["states_generated"],
                                           "finished_behaviours": int(fin[0][0]), "not_fine": int(fin[0][1]),
                                           "predicted": {k: sorted(v) for k, v in sorted(predicted.items())}}},
-                shapes=len(shapes), tlc_invariants=["AtomicAlways", "OutcomeMatches", "Repeatable", "RegistryAgrees", "NoCommitAfterFault"])
+                shapes=len(shapes), journal_mode_seen=journal, tlc_invariants=["AtomicAlways", "OutcomeMatches", "Repeatable", "RegistryAgrees", "NoCommitAfterFault"])
 
         # ---- 3a. trace validation of every statement log
         # self-check of the binding: corrupted copies of a real fault-free log must be rejected
@@ -320,6 +333,10 @@ def main(tier, seed):
                 continue
             m = meta[tr["id"]]
             pred = predicted.get(m["shape"], set())
+            if v[2].startswith("durability_assumption"):
+                run.violation({"site": "with_connection", "clause": "durability_assumption", "observed": v[2],
+                               "impl_predicts": "yes" if journal != "disk" else "no"}, {"trace": tr, "position": v[1], "scenario": m})
+                continue
             run.violation({"site": m["site"], "clause": "connection_discipline", "fault": fault_class(m["kind"]),
                            "observed": v[2], "impl_predicts": "yes" if ("success_after_failed_statement" in pred or
                                                                        "not_atomic:partial_effect_committed" in pred) else "no"},
@@ -331,6 +348,20 @@ def main(tier, seed):
         ufile = os.path.join(scratch, "universe.json")
         with open(ufile, "w") as f:
             json.dump(sc.universe_json(), f)
+        # a set-up step that was not accepted: a violation if the dictionary model allows it (judged by StoreOracle);
+        # if the model refuses it too it is the "unrelated content" variant that does not fit this scenario
+        if setup_failures:
+            sans = tlc.oracle("StoreOracle", [x["rec"] for x in setup_failures], env={"U_IN": ufile}, timeout=600)
+            for x, a in zip(setup_failures, sans):
+                if a["ok"]:
+                    if not x["scenario"]["variant"].endswith("unrelated_content"):
+                        raise MachineryError(f"set-up step {x['rec']['op']['op']} of scenario {x['scenario']} is refused by the model as well")
+                    run.add("unrelated_content_variant_not_applicable")
+                    continue
+                run.violation({"site": sc.SITE[x["rec"]["op"]["op"]], "clause": "setup: refused although allowed",
+                               "observed": x["rec"]["out"] + (":" + x["exc"] if x["rec"]["out"] == "error" else ""),
+                               "spec_clause": a["clause"]},
+                              {"scenario": x["scenario"], "record": x["rec"], "message": x["msg"], "answer": a})
         answers = tlc.oracle("StoreTxOracle", [r for r, _ in records], env={"U_IN": ufile}, timeout=1200, chunk=3000)
         nsample = 0
         for (rec, m), ans in zip(records, answers):
@@ -347,7 +378,8 @@ def main(tier, seed):
                 run.add("not_judged_fault_free_call_already_leaves_Store_Spec")
                 continue
             pred = predicted.get(m["shape"], set())
-            want = {"atomic": {"not_atomic:partial_effect_committed"}, "nothing_half_present": {"not_atomic:partial_effect_committed"},
+            want = {"atomic": {"not_atomic:partial_effect_committed", "not_atomic:spilled_pages_stay_after_process_death"},
+                    "nothing_half_present": {"not_atomic:partial_effect_committed", "not_atomic:spilled_pages_stay_after_process_death"},
                     "outcome_matches_effect": {"not_atomic:partial_effect_committed", "success_after_failed_statement"},
                     "repeatable": {"not_repeatable:registry_keeps_item_the_database_rolled_back"}}.get(ans["clause"], set())
             run.violation({"site": m["site"], "prior": m["prior"], "clause": ans["clause"], "fault": fault_class(m["kind"]),
@@ -392,6 +424,7 @@ def validate_traces(traces, scratch):
 
 def enumerate_faults(run, H, scen, thorough, seed):
     records, traces, shapes, meta = [], [], [], {}
+    setup_failures = []
     sess = H.sess
     tid = [0]
 
@@ -404,8 +437,10 @@ def enumerate_faults(run, H, scen, thorough, seed):
 
     for sc_ in scen:
         site, prior, op_ = sc_["name"], sc_["prior"], sc_["op"]
-        if not H.prepare(sc_):
-            run.add("unrelated_content_variant_not_applicable")
+        prep = H.prepare(sc_)
+        if prep is not True:
+            prep["scenario"] = {"site": site, "prior": prior, "variant": sc_["variant"]}
+            setup_failures.append(prep)
             continue
         pre = sc.spec_file(sess.project("d1"))
         retr_pre = H.retrievals(sc_)
@@ -466,4 +501,4 @@ def enumerate_faults(run, H, scen, thorough, seed):
                 sess._cache = {}
                 sess.new_session()       # the process is gone: whoever comes next is a new session
                 record("crash", m, True)
-    return records, traces, shapes, meta
+    return records, traces, shapes, meta, setup_failures
